@@ -1,6 +1,7 @@
 """Source of truth for MANIFEST.json (tools/gen_manifest.py)."""
 HOOK_COMMITS = []
 ENGINES = [
+    {"name": "E4-streaming", "path": "vf/props/c18.py", "serves_properties": ["C18"], "kind_free_text": "explicit-state search over StreamingHandler states, one transition per chunk"},
     {"name": "E4-server", "path": "vf/props/c20.py", "serves_properties": ["C20"], "kind_free_text": "token-string enumerator + request-sequence BFS against the real FastAPI app"},
     {"name": "E1-v2x", "path": "vf/engines/v2x.py", "serves_properties": ["C04", "C05", "C06", "C07", "C08", "C09", "C10", "C11"],
      "kind_free_text": "explicit-state BFS over the real Colang 2.x interpreter (run_to_completion), all random.choice outcomes enumerated, canonical-state dedup, from-scratch replay validation"},
@@ -63,5 +64,11 @@ CHECKS["C20"] = {
     "technique": "exhaustive enumeration of all config-id strings up to k hostile tokens (HTTP and direct call, single/list forms, both server modes) + breadth-first search over all request sequences over 3 thread ids with a dict-of-lists reference model",
     "text": "Part A: every distinct string of <=3 (quick) / <=4 (thorough) tokens over 21 hostile tokens as config_id / config_ids, multi- and single-config mode, real RailsConfig.from_path behind a recorder on a scratch tree with prefix-sharing siblings: every loaded path is inside the root, else the fixed reply, never a 500. Part B: BFS (state = datastore contents) over request sequences to depth 4 / 6 against the real endpoint and MemoryStore; messages given to the rails instance and the stored thread equal the reference model.",
     "note": "Trusted: fake LLMRails (echo), POSIX path semantics; symlinks and non-memory datastores not covered.",
+}
+CHECKS["C18"] = {
+    "engine": "E4-streaming (handler state-space search)", "level": "model_checking",
+    "technique": "explicit-state model checking of the real StreamingHandler: search over (offset, handler field snapshot, delivered text) with one transition per next chunk, covering all 2^(n-1) chunkings of every text through the merged DAG; DAG paths replayed on a real asyncio loop",
+    "text": "All texts up to the length bound over an alphabet containing the prefix/suffix/stop characters (plus realistic shapes and all their character prefixes) x 18 prefix/suffix/stop configurations x 3 delivery modes (push_chunk, LangChain callbacks, piped handler) x 2 end protocols; for each the set of delivered strings over all chunkings must be a singleton, equal `completion`, and be a reading of 'prefix and suffix removed, cut at the first stop'.",
+    "note": "Trusted: the field-snapshot state abstraction (validated by replaying witness paths from scratch through the async iterator), pattern/stop configured before the first chunk; buffering mode and mid-stream set_pattern are not covered.",
 }
 NOT_APPLICABLE = {}
